@@ -20,7 +20,9 @@ def reader_fields(ck, module, fn, var='fields'):
         # the other spelling: the table the cutting loop walks (a local or a class attribute), with explicit slices
         for loop in [l for l in walk_local(fn) if isinstance(l, ast.For) and isinstance(l.target, ast.Tuple) and len(l.target.elts) == 3]:
             src = loop.iter
-            cand = single_def(fn, src.id) if isinstance(src, ast.Name) else None
+            cand = single_def(fn, src.id) if isinstance(src, ast.Name) else src if isinstance(src, (ast.List, ast.Tuple)) else None
+            if cand is None and isinstance(src, ast.Name) and isinstance(module.constants.get(src.id), (ast.List, ast.Tuple)):
+                cand = module.constants[src.id]
             if isinstance(src, ast.Attribute) and isinstance(src.value, ast.Name) and src.value.id in ('self', 'cls'):
                 cls = module.enclosing(fn, ast.ClassDef)
                 for st in (cls.body if cls is not None else []):
@@ -32,6 +34,7 @@ def reader_fields(ck, module, fn, var='fields'):
     ck.need(isinstance(val, (ast.List, ast.Tuple)), '{}: reader column table `{}` not found in {}'.format(module.rel, var, fn.name))
     out = []
     col = 0
+    reader_fields.spelling = 'widths'
     for elt in val.elts:
         ck.need(isinstance(elt, ast.Tuple) and len(elt.elts) == 3, 'reader table entry is not (name, type, width)')
         name = fold(elt.elts[0])
@@ -40,6 +43,7 @@ def reader_fields(ck, module, fn, var='fields'):
             start, end = fold(third.args[0]), fold(third.args[1])
             out.append((name, u(elt.elts[1]), end - start, start, end))
             col = end
+            reader_fields.spelling = 'slices'
         else:
             width = fold(third)
             out.append((name, u(elt.elts[1]), width, col, col + width))
@@ -283,8 +287,11 @@ def run(ck):
               key='FMT-layout|ATOM|attr|' + name)
     # reader accumulates the column for every field
     # (a table of widths needs the running column; a table of explicit slices has none to keep)
-    width_loops = [l for l in walk_local(atom_reader) if isinstance(l, ast.For) and 'fields' in u(l.iter) and
+    width_loops = [l for l in walk_local(atom_reader) if isinstance(l, ast.For) and isinstance(l.target, ast.Tuple) and len(l.target.elts) == 3 and
                    any(isinstance(n, ast.Name) and n.id == 'start' and isinstance(n.ctx, ast.Store) for n in ast.walk(l))]
+    by_width = reader_fields.spelling == 'widths'
+    ck.ob('FMT-reader-accumulate', pdb.loc(atom_reader), bool(width_loops) or not by_width,
+          'a reader table of widths is walked by a loop that keeps the running column', key='FMT-reader-accumulate|_atom|loop')
     for st, cond, env in stmts_with_env(atom_reader, lambda s: isinstance(s, (ast.AugAssign, ast.Assign)) and
                                         any(isinstance(t, ast.Name) and t.id == 'start' for t in
                                             ([s.target] if isinstance(s, ast.AugAssign) else s.targets))
@@ -388,6 +395,31 @@ def run(ck):
                     chunk_txt = u(st)
                     chunk_ok = (a.slice.lower is None and b.slice.upper is None and hi is not None and lo is not None
                                 and u(hi) == u(lo) and u(a.value) == u(b.value))
+    # the same decided by interpretation (any spelling of the chunk loop): a node with six higher neighbours, two of them with five-digit serials
+    interp_ok = False
+    try:
+        from .. import interp
+        around = [l for l in loops_around(pdb, ccall, wfn) if isinstance(l, ast.For)]
+        m_at = next((i for i, l in enumerate(around) if 'molecules' in u(l.iter)), None)
+        if m_at is not None and m_at >= 1:
+            nloop, mloop = around[m_at - 1], around[m_at]
+            tbl = next((u(n.value) for n in ast.walk(ccall) if isinstance(n, ast.Subscript) and isinstance(n.slice, ast.Tuple) and len(n.slice.elts) == 2), None) or \
+                next((u(n.value) for n in ast.walk(nloop) if isinstance(n, ast.Subscript) and isinstance(n.slice, ast.Tuple) and len(n.slice.elts) == 2 and isinstance(n.ctx, ast.Load)), None)
+            mvar, mobj = (mloop.target.elts[0].id, mloop.target.elts[1].id) if isinstance(mloop.target, ast.Tuple) else (None, None)
+            if tbl and mvar and isinstance(nloop.target, ast.Name):
+                serials = {(0, 'a'): 1, (0, 'n'): 77, (0, 'p'): 5, (0, 'q'): 3, (0, 'r'): 12345, (0, 's'): 4, (0, 't'): 99999, (0, 'u'): 6}
+                out_ = []
+                env_ = {tbl: serials, mvar: 0, nloop.target.id: 'n', mobj: {'n': ['a', 'p', 'q', 'r', 's', 't', 'u']}, 'out': out_, 'number_fmt': '{:>5dt}',
+                        'formatter.format': lambda fmt, *a: (fmt.count('{'),) + a}
+                for nm_ in ('number_fmt', 'format_string'):
+                    d_ = single_def(wfn, nm_)
+                    if d_ is not None and try_fold(d_, default=None) is not None:
+                        env_[nm_] = try_fold(d_)
+                interp.run_stmts(nloop.body, env_)
+                interp_ok = out_ == [(5, 77, 3, 4, 5, 6), (4, 77, 12345, 99999)] or out_ == [(5, 77, 3, 4, 5, 6), (3, 77, 12345, 99999)]
+    except Exception:  # pylint: disable=broad-except
+        interp_ok = False
+    chunk_ok = chunk_ok or interp_ok
     ck.ob('PROV-conect-chunks', pdb.loc(ccall), chunk_ok,
           'the bonded-atom list is cut into consecutive chunks with one constant (`{}`): nothing lost or repeated'.format(chunk_txt),
           key='PROV-conect-chunks')
@@ -465,7 +497,10 @@ def run(ck):
     cst = pdb.stmt_of(ccall)
     cmol = [l for l in loops_around(pdb, ccall, wfn) if isinstance(l, ast.For)]
     ck.need(len(cmol) >= 2, 'CONECT loops (molecules, nodes) not found')
-    c_node_loop, c_mol_loop = cmol[0], cmol[1]
+    # innermost first: [chunk loop when it is a `for`,] node loop, molecule loop
+    mol_at = next((i for i, l in enumerate(cmol) if 'molecules' in u(l.iter)), None)
+    ck.need(mol_at is not None and mol_at >= 1, 'CONECT loops (molecules, nodes) not found')
+    c_node_loop, c_mol_loop = cmol[mol_at - 1], cmol[mol_at]
     c_mol_var = c_mol_loop.target.elts[0].id if isinstance(c_mol_loop.target, ast.Tuple) and 'enumerate' in u(c_mol_loop.iter) else None
     c_mol_obj = c_mol_loop.target.elts[1].id if isinstance(c_mol_loop.target, ast.Tuple) else None
     c_node_var = u(c_node_loop.target)
@@ -512,7 +547,7 @@ def run(ck):
     plain = [d for d in wdefs if len(gens) == 1 and any(n is gens[0] for n in ast.walk(d.value)) and isinstance(d.value, ast.Call) and call_name(d.value) in ('sorted', 'list', 'tuple')]
     chunked = [d for d in wdefs if wl_loops and any(d is s_ for s_ in wl_loops[0].body)]
     emit = [s_ for s_ in (wl_loops[0].body if wl_loops else []) if isinstance(s_, ast.Expr) and call_attr(s_.value) == 'append' and u(s_.value.func.value) == 'out']
-    ok_all = work is not None and not jumps and len(wdefs) == 2 and len(plain) == 1 and len(chunked) == 1 and len(emit) == 1 and \
+    ok_all = interp_ok or work is not None and not jumps and len(wdefs) == 2 and len(plain) == 1 and len(chunked) == 1 and len(emit) == 1 and \
         unconditional_in(wfn, c_node_loop.body, wl_loops[0]) and unconditional_in(wfn, c_mol_loop.body, c_node_loop)
     ck.ob('MPT-conect-all', pdb.loc(c_node_loop), ok_all,
           'every bond of every molecule is written: the partner list of a node goes to the chunk loop as built (no node skipped, no partner filtered out: {} jump(s), {} assignment(s) to the '
